@@ -220,6 +220,11 @@ fn main() {
 }
 
 fn dispatch(a: &Args, replay: Option<(Vec<String>, String)>) -> ! {
+    // process-outcome-only mode applies to searches, families and replays alike (it used to be switched on
+    // by the search configuration only, so `family ... --crash-only 1` ran with the functional oracles on)
+    if a.num("crash-only", 0) > 0 {
+        engine::CRASH_ONLY.store(true, std::sync::atomic::Ordering::Relaxed);
+    }
     let sys = a.get("sys").unwrap_or_else(|| die("--sys required")).to_string();
     macro_rules! go {
         ($s:expr) => {{
